@@ -2,12 +2,13 @@
 C17 - combinators claim success only at a fixed point; couplers compose as documented.
 Property theorems only (helper lemmas live in Proofs/Combinators.lean).
 
-`c j x` : what member call number `j` (to member `j % n`) does on `x` (`Out`: returned `y`, raised a swallowed
-`ZeroDivisionError` / `TypeError`-`ValueError`, raised something that propagates); `detc mem n` = deterministic
-members `mem 0 .. mem (n-1)`.  All statements hold for EVERY draw stream `draws` and every replacement function
-`rand`/`pick`; the `_oracle` / `_bounded` ones for EVERY member behaviour, deterministic or not.
+`c i x = some y` : member `i` maps `x` to `y`;  `none` : it raised `ZeroDivisionError`.
+All statements hold for EVERY draw stream `draws` and every replacement function `rand`/`pick`.
 -/
 import MysticVerif.Proofs.Combinators
+import MysticVerif.Props.C17.Ext
+import MysticVerif.Props.C17.Pen
+import MysticVerif.Props.C17.Cpl
 import Mathlib.Tactic.Linarith
 import Mathlib.Algebra.Order.Ring.Abs
 import Mathlib.Algebra.Order.BigOperators.Group.List
@@ -20,104 +21,92 @@ variable {X D : Type}
 /-! ## `constraints.and_` -/
 
 /-- what a success of the cycling phase / first pass guarantees about the history window -/
-private theorem andCycle_success [BEq X] [LawfulBEq X] {c : Nat → X → Out X} {rand : D → X → X}
+private theorem andCycle_success [BEq X] [LawfulBEq X] {c : Nat → X → Option X} {rand : D → X → X}
     {n cap : Nat} (hn : 0 < n) :
     ∀ (fuel j : Nat) (h : List X) (top : X) (links : Nat) (draws : List D) (st : Stats)
       (y : X) (t links' : Nat) (st' : Stats),
-      n ≤ j → LenInv n j (h.length + 1) → Linked c j (top :: h) links →
+      n ≤ j → LenInv n j (h.length + 1) → Linked c n j (top :: h) links →
       andCycle c rand n cap fuel j h top links draws st = (.success y t links', st') →
-      ∃ l, Linked c (t + 1) (y :: l) links' ∧ lastAllEq (n - 1) l y = true ∧ n ≤ l.length ∧ n ≤ t + 1 := by
+      ∃ l, Linked c n (t + 1) (y :: l) links' ∧ lastAllEq (n - 1) l y = true ∧ n ≤ l.length ∧ n ≤ t + 1 := by
   intro fuel
   induction fuel with
   | zero => intro j h top links draws st y t links' st' _ _ _ hr; simp [andCycle] at hr
   | succ fuel ih =>
     intro j h top links draws st y t links' st' hj hlen hlink hr
     unfold andCycle at hr
+    have hpush := Linked.push hlink
     have hlen' := LenInv.step hn hj hlen
     split at hr
     · simp at hr
-    · split at hr
-      · simp at hr
-      · rename_i ye hye
-        have hpush := Linked.push hlink hye
-        simp only at hr
+    · simp only at hr
+      split at hr
+      · rename_i hsucc
+        simp only [Prod.mk.injEq, Res.success.injEq] at hr
+        obtain ⟨⟨rfl, rfl, rfl⟩, _⟩ := hr
+        refine ⟨top :: h, hpush, ?_, ?_, by omega⟩
+        · simp only [Bool.and_eq_true] at hsucc; exact hsucc.2
+        · have := LenInv.ge hn hj hlen; (first | (simp; done) | (simp; omega))
+      · have hlenD : LenInv n (j + 1) ((dropOld n j (top :: h)).length + 1) := by
+          rw [dropOld_length]; simpa using hlen'
         split at hr
-        · rename_i hsucc
-          simp only [Prod.mk.injEq, Res.success.injEq] at hr
-          obtain ⟨⟨rfl, rfl, rfl⟩, _⟩ := hr
-          refine ⟨top :: h, hpush, ?_, ?_, by omega⟩
-          · simp only [Bool.and_eq_true] at hsucc; exact hsucc.2
-          · have := LenInv.ge hn hj hlen; (first | (simp; done) | (simp; omega))
-        · have hlenD : LenInv n (j + 1) ((dropOld n j (top :: h)).length + 1) := by
-            rw [dropOld_length]; simpa using hlen'
-          split at hr
-          · split at hr
-            · simp at hr
-            · rename_i d ds
-              refine ih (j + 1) _ _ _ ds _ y t links' st' (by omega) hlenD ?_ hr
-              split
-              · rename_i heq
-                have : rand d ye.1 = ye.1 := by simpa using heq
-                rw [this]; exact Linked.dropOld_tail hpush
-              · exact Linked.zero _ _ _
-          · exact ih (j + 1) _ _ _ draws _ y t links' st' (by omega) hlenD (Linked.dropOld_tail hpush) hr
+        · split at hr
+          · simp at hr
+          · rename_i d ds
+            refine ih (j + 1) _ _ _ ds _ y t links' st' (by omega) hlenD ?_ hr
+            split
+            · rename_i heq
+              have : rand d (applyM (c (j % n)) top).1 = (applyM (c (j % n)) top).1 := by simpa using heq
+              rw [this]; exact Linked.dropOld_tail hpush
+            · exact Linked.zero _ _ _ _
+        · exact ih (j + 1) _ _ _ draws _ y t links' st' (by omega) hlenD (Linked.dropOld_tail hpush) hr
 
-private theorem andFirst_inv {c : Nat → X → Out X} :
-    ∀ (k i : Nat) (h : List X) (top : X) (e : Bool) (links : Nat) (r : List X × X × Bool × Nat),
-      Linked c i (top :: h) links → h.length = i → andFirst c k i h top e links = .ok r →
-      Linked c (i + k) (r.2.1 :: r.1) r.2.2.2 ∧ r.1.length = i + k := by
+private theorem andFirst_inv {c : Nat → X → Option X} {n : Nat} :
+    ∀ (k i : Nat) (h : List X) (top : X) (e : Bool) (links : Nat),
+      Linked c n i (top :: h) links → h.length = i →
+      Linked c n (i + k) ((andFirst c n k i h top e links).2.1 :: (andFirst c n k i h top e links).1)
+        (andFirst c n k i h top e links).2.2.2 ∧ (andFirst c n k i h top e links).1.length = i + k := by
   intro k
   induction k with
-  | zero =>
-    intro i h top e links r hl hlen hr
-    simp only [andFirst, Except.ok.injEq] at hr
-    subst hr; exact ⟨by simpa using hl, by simpa using hlen⟩
+  | zero => intro i h top e links hl hlen; simpa [andFirst] using ⟨hl, hlen⟩
   | succ k ih =>
-    intro i h top e links r hl hlen hr
-    unfold andFirst at hr
-    split at hr
-    · simp at hr
-    · rename_i ye hye
-      have := ih (i + 1) (top :: h) ye.1 (e || ye.2) (if ye.2 = true then 0 else links + 1) r
-        (Linked.push hl hye) (by simp [hlen]) hr
-      have e1 : i + 1 + k = i + (k + 1) := by omega
-      rw [e1] at this
-      exact this
+    intro i h top e links hl hlen
+    unfold andFirst
+    have := ih (i + 1) (top :: h) (applyM (c (i % n)) top).1 (e || (applyM (c (i % n)) top).2)
+      (if (applyM (c (i % n)) top).2 = true then 0 else links + 1) (Linked.push hl) (by simp [hlen])
+    have e1 : i + 1 + k = i + (k + 1) := by omega
+    rw [e1] at this
+    exact this
 
 /-- window facts behind every success of `and_` -/
-private theorem and_success_window [BEq X] [LawfulBEq X] {c : Nat → X → Out X} {rand : D → X → X}
+private theorem and_success_window [BEq X] [LawfulBEq X] {c : Nat → X → Option X} {rand : D → X → X}
     {n cap : Nat} {x : X} {draws : List D} {y : X} {t links : Nat} {st : Stats} (hn : 0 < n)
     (hr : and_ c rand n cap x draws = (.success y t links, st)) :
-    ∃ l, Linked c (t + 1) (y :: l) links ∧ lastAllEq (n - 1) l y = true ∧ n ≤ l.length ∧ n ≤ t + 1 := by
+    ∃ l, Linked c n (t + 1) (y :: l) links ∧ lastAllEq (n - 1) l y = true ∧ n ≤ l.length ∧ n ≤ t + 1 := by
   unfold and_ at hr
   rw [if_neg (by omega)] at hr
+  simp only at hr
+  have hinv := andFirst_inv (c := c) (n := n) n 0 [] x false 0 (Linked.zero _ _ _ _) rfl
   split at hr
-  · simp at hr
-  · rename_i fp hfp
-    have hinv := andFirst_inv (c := c) n 0 [] x false 0 fp (Linked.zero _ _ _) rfl hfp
-    simp only at hr
-    split at hr
-    · rename_i hs
-      simp only [Prod.mk.injEq, Res.success.injEq] at hr
-      obtain ⟨⟨rfl, rfl, rfl⟩, _⟩ := hr
-      refine ⟨fp.1, ?_, ?_, by have := hinv.2; omega, by omega⟩
-      · have := hinv.1; simp only [Nat.zero_add] at this
-        have e : n - 1 + 1 = n := by omega
-        rw [e]; exact this
-      · simp only [Bool.and_eq_true] at hs; exact hs.2
-    · refine andCycle_success hn _ n _ _ _ draws _ y t links st (Nat.le_refl _) ?_ ?_ hr
-      · refine ⟨fun _ => by have := hinv.2; omega, fun h2 => by omega⟩
-      · have := hinv.1; simpa using this
+  · rename_i hs
+    simp only [Prod.mk.injEq, Res.success.injEq] at hr
+    obtain ⟨⟨rfl, rfl, rfl⟩, _⟩ := hr
+    refine ⟨(andFirst c n n 0 [] x false 0).1, ?_, ?_, by have := hinv.2; omega, by omega⟩
+    · have := hinv.1; simp only [Nat.zero_add] at this
+      have e : n - 1 + 1 = n := by omega
+      rw [e]; exact this
+    · simp only [Bool.and_eq_true] at hs; exact hs.2
+  · refine andCycle_success hn _ n _ _ _ draws _ y t links st (Nat.le_refl _) ?_ ?_ hr
+    · refine ⟨fun _ => by omega, fun h2 => by omega⟩
+    · have := hinv.1; simpa using this
 
-/-- **and_ / links, for ALL member behaviours** (deterministic or not, raising or not).  On success, each of the
-newest `min links (n-1)` history links is a member call that RETURNED the result unchanged: call number `t - m`
-(made to member `(t - m) % n`) mapped `y` to `y`, for `m < links`, `m + 1 < n`.
-(`links` is the ghost count of genuine member applications since the last swallowed exception or random
-replacement that changed a value; it is `≥ n` on every run without such an event inside the window.) -/
-theorem and_success_links_oracle [BEq X] [LawfulBEq X] (c : Nat → X → Out X) (rand : D → X → X)
+/-- **and_ / links.** On success, each of the newest `min links (n-1)` history links is a member that
+leaves the returned vector unchanged: member `(t - m) % n` for `m < links`, `m + 1 < n`.
+(`links` is the ghost count of genuine member applications since the last random replacement that
+changed a value; it is `≥ n` on every run without such a replacement inside the window.) -/
+theorem and_success_links [BEq X] [LawfulBEq X] (c : Nat → X → Option X) (rand : D → X → X)
     (n cap : Nat) (x : X) (draws : List D) (y : X) (t links : Nat) (st : Stats)
     (hr : and_ c rand n cap x draws = (.success y t links, st)) :
-    ∀ m, m < links → m + 1 < n → c (t - m) y = .ret y := by
+    ∀ m, m < links → m + 1 < n → c ((t - m) % n) y = some y := by
   intro m hm hmn
   have hn : 0 < n := by omega
   obtain ⟨l, hl, hw, hlen, _⟩ := and_success_window hn hr
@@ -136,13 +125,6 @@ theorem and_success_links_oracle [BEq X] [LawfulBEq X] (c : Nat → X → Out X)
   have e : t + 1 - 1 - m = t - m := by omega
   rw [e] at this; exact this
 
-/-- **and_ / links**, deterministic members `m 0 .. m (n-1)`: member `(t - k) % n` leaves the result unchanged. -/
-theorem and_success_links [BEq X] [LawfulBEq X] (mem : Nat → X → Out X) (rand : D → X → X)
-    (n cap : Nat) (x : X) (draws : List D) (y : X) (t links : Nat) (st : Stats)
-    (hr : and_ (detc mem n) rand n cap x draws = (.success y t links, st)) :
-    ∀ m, m < links → m + 1 < n → mem ((t - m) % n) y = .ret y :=
-  and_success_links_oracle (detc mem n) rand n cap x draws y t links st hr
-
 private theorem cover (n t i : Nat) (hi : i < n) (ht : n ≤ t + 1) : ∃ m, m < n ∧ (t - m) % n = i := by
   have hn : 0 < n := by omega
   refine ⟨(t + n - i) % n, Nat.mod_lt _ hn, ?_⟩
@@ -157,10 +139,10 @@ private theorem cover (n t i : Nat) (hi : i < n) (ht : n ≤ t + 1) : ∃ m, m <
 
 /-- **and_ / all but one.** With an intact window (`n - 1 ≤ links`) every member except possibly
 member `(t + 1) % n` - the one whose *output* the window ends with - leaves the result unchanged. -/
-theorem and_success_fixed_all_but_one [BEq X] [LawfulBEq X] (mem : Nat → X → Out X) (rand : D → X → X)
+theorem and_success_fixed_all_but_one [BEq X] [LawfulBEq X] (c : Nat → X → Option X) (rand : D → X → X)
     (n cap : Nat) (x : X) (draws : List D) (y : X) (t links : Nat) (st : Stats)
-    (hr : and_ (detc mem n) rand n cap x draws = (.success y t links, st)) (hlinks : n - 1 ≤ links) :
-    ∀ i, i < n → i ≠ (t + 1) % n → mem i y = .ret y := by
+    (hr : and_ c rand n cap x draws = (.success y t links, st)) (hlinks : n - 1 ≤ links) :
+    ∀ i, i < n → i ≠ (t + 1) % n → c i y = some y := by
   intro i hi hne
   have hn : 0 < n := by omega
   obtain ⟨_, _, _, _, ht⟩ := and_success_window hn hr
@@ -170,19 +152,19 @@ theorem and_success_fixed_all_but_one [BEq X] [LawfulBEq X] (mem : Nat → X →
     rw [← hmi, hlast]
     have e : t + 1 = (t - (n - 1)) + n := by omega
     rw [e, Nat.add_mod_right]
-  · have := and_success_links mem rand n cap x draws y t links st hr m (by omega) (by omega)
+  · have := and_success_links c rand n cap x draws y t links st hr m (by omega) (by omega)
     rw [hmi] at this; exact this
 
-/-- a member is idempotent where it returns -/
-def Idem (f : X → Out X) : Prop := ∀ a b, f a = .ret b → f b = .ret b
+/-- a member is idempotent where it is defined -/
+def Idem (f : X → Option X) : Prop := ∀ a b, f a = some b → f b = some b
 
 /-- **and_ / fixed point.** With idempotent members and an intact window (`n ≤ links`), a success of
 `and_` returns a vector left unchanged by EVERY member. -/
-theorem and_success_fixed [BEq X] [LawfulBEq X] (mem : Nat → X → Out X) (rand : D → X → X)
+theorem and_success_fixed [BEq X] [LawfulBEq X] (c : Nat → X → Option X) (rand : D → X → X)
     (n cap : Nat) (x : X) (draws : List D) (y : X) (t links : Nat) (st : Stats)
-    (hidem : ∀ i, i < n → Idem (mem i))
-    (hr : and_ (detc mem n) rand n cap x draws = (.success y t links, st)) (hlinks : n ≤ links) :
-    ∀ i, i < n → mem i y = .ret y := by
+    (hidem : ∀ i, i < n → Idem (c i))
+    (hr : and_ c rand n cap x draws = (.success y t links, st)) (hlinks : n ≤ links) :
+    ∀ i, i < n → c i y = some y := by
   intro i hi
   have hn : 0 < n := by omega
   by_cases hne : i = (t + 1) % n
@@ -202,16 +184,14 @@ theorem and_success_fixed [BEq X] [LawfulBEq X] (mem : Nat → X → Out X) (ran
       rw [hne]
       have e2 : t + 1 = (t + 1 - 1 - (n - 1)) + n := by omega
       conv => rhs; rw [e2, Nat.add_mod_right]
-    simp only [detc] at hlk
     rw [e] at hlk
     exact hidem i hi _ _ hlk
-  · exact and_success_fixed_all_but_one mem rand n cap x draws y t links st hr (by omega) i hi hne
+  · exact and_success_fixed_all_but_one c rand n cap x draws y t links st hr (by omega) i hi hne
 
-/-- calls and draws of the cycling phase: one call and at most one replacement per iteration -/
-private theorem andCycle_calls [BEq X] (c : Nat → X → Out X) (rand : D → X → X) (n cap : Nat) :
+/-- `and_` makes at most `max n cap` member calls (`cap = maxiter * n`), for every draw stream -/
+private theorem andCycle_calls [BEq X] (c : Nat → X → Option X) (rand : D → X → X) (n cap : Nat) :
     ∀ (fuel j : Nat) (h : List X) (top : X) (links : Nat) (draws : List D) (st : Stats),
-      (andCycle c rand n cap fuel j h top links draws st).2.calls ≤ st.calls + fuel ∧
-      (andCycle c rand n cap fuel j h top links draws st).2.draws ≤ st.draws + fuel := by
+      (andCycle c rand n cap fuel j h top links draws st).2.calls ≤ st.calls + fuel := by
   intro fuel
   induction fuel with
   | zero => intros; simp [andCycle]
@@ -220,95 +200,54 @@ private theorem andCycle_calls [BEq X] (c : Nat → X → Out X) (rand : D → X
     unfold andCycle
     split
     · simp
-    · split
-      · simp; omega
-      · rename_i ye hye
-        simp only
-        split
-        · simp; omega
+    · simp only
+      split
+      · (first | (simp; done) | (simp; omega))
+      · split
         · split
-          · split
-            · simp; omega
-            · rename_i d ds
-              have := ih (j + 1) (dropOld n j (top :: h)) (rand d ye.1)
-                (if (rand d ye.1 == ye.1) = true
-                  then (if ye.2 = true then 0 else links + 1) else 0)
-                ds { calls := st.calls + 1, draws := st.draws + 1 }
-              simp only at this ⊢
-              omega
-          · have := ih (j + 1) (dropOld n j (top :: h)) ye.1
-                (if ye.2 = true then 0 else links + 1) draws
-                { st with calls := st.calls + 1 }
+          · (first | (simp; done) | (simp; omega))
+          · have := ih (j + 1) (dropOld n j (top :: h)) (rand ‹D› (applyM (c (j % n)) top).1)
+              (if (rand ‹D› (applyM (c (j % n)) top).1 == (applyM (c (j % n)) top).1) = true
+                then (if (applyM (c (j % n)) top).2 = true then 0 else links + 1) else 0)
+              ‹List D› { calls := st.calls + 1, draws := st.draws + 1 }
             simp only at this ⊢
             omega
+        · have := ih (j + 1) (dropOld n j (top :: h)) (applyM (c (j % n)) top).1
+              (if (applyM (c (j % n)) top).2 = true then 0 else links + 1) draws
+              { st with calls := st.calls + 1 }
+          simp only at this ⊢
+          omega
 
-private theorem andFirst_error {c : Nat → X → Out X} :
-    ∀ (k i : Nat) (h : List X) (top : X) (e : Bool) (links : Nat) (m : Nat),
-      andFirst c k i h top e links = .error m → m ≤ i + k := by
-  intro k
-  induction k with
-  | zero => intro i h top e links m hr; simp [andFirst] at hr
-  | succ k ih =>
-    intro i h top e links m hr
-    unfold andFirst at hr
-    split at hr
-    · simp only [Except.error.injEq] at hr; omega
-    · have := ih _ _ _ _ _ _ m hr; omega
-
-/-- **bounded iterations (and_).**  For EVERY member behaviour (non-deterministic, raising, anything), every
-draw stream and every replacement function: `and_` makes at most `max n cap` member calls (`cap = maxiter * n`). -/
-theorem and_calls_bounded [BEq X] (c : Nat → X → Out X) (rand : D → X → X)
+theorem and_calls_bounded [BEq X] (c : Nat → X → Option X) (rand : D → X → X)
     (n cap : Nat) (x : X) (draws : List D) : (and_ c rand n cap x draws).2.calls ≤ max n cap := by
   unfold and_
   split
   · simp
-  · split
-    · rename_i k hk
-      have := andFirst_error n 0 [] x false 0 k hk
-      simp only; omega
-    · rename_i fp hfp
-      simp only
-      split
-      · (first | (simp; done) | (simp; omega))
-      · have := (andCycle_calls c rand n cap (cap - n) n fp.1 fp.2.1 fp.2.2.2 draws { calls := n }).1
-        simp only at this
-        omega
-
-/-- **bounded randomisation (and_).**  The cycle-breaker replaces `x[-1]` at most `cap - n` times (once per
-iteration of the cycling phase at most; each replacement consumes `2 * len(x[-1])` draws of `random`), and never
-before the first pass is over. -/
-theorem and_draws_bounded [BEq X] (c : Nat → X → Out X) (rand : D → X → X)
-    (n cap : Nat) (x : X) (draws : List D) : (and_ c rand n cap x draws).2.draws ≤ cap - n := by
-  unfold and_
-  split
-  · simp
-  · split
-    · simp
-    · rename_i fp hfp
-      simp only
-      split
-      · simp
-      · have := (andCycle_calls c rand n cap (cap - n) n fp.1 fp.2.1 fp.2.2.2 draws { calls := n }).2
-        simp only at this
-        omega
+  · simp only
+    split
+    · (first | (simp; done) | (simp; omega))
+    · have := andCycle_calls c rand n cap (cap - n) n (andFirst c n n 0 [] x false 0).1
+        (andFirst c n n 0 [] x false 0).2.1 (andFirst c n n 0 [] x false 0).2.2.2 draws { calls := n }
+      simp only at this
+      omega
 
 /-! ### the two ways the full claim fails on the code as it is (known findings F7 / F7b)
 
 Both are closed terms evaluated by the kernel (`decide`). -/
 
 /-- F7: one non-idempotent member (`x ↦ x+1 while x < 2`): `and_(c)([0])` succeeds with `1`, which `c` moves. -/
-def witC : Nat → Nat → Out Nat := fun _ x => if x < 2 then .ret (x + 1) else .ret x
+def witC : Nat → Nat → Option Nat := fun _ x => if x < 2 then some (x + 1) else some x
 theorem and_not_fixed_witness :
-    (and_ (detc witC 1) (fun (d : Nat) _ => d) 1 100 0 []).1 = .success 1 0 1 ∧ witC 0 1 ≠ .ret 1 := by
+    (and_ witC (fun (d : Nat) _ => d) 1 100 0 []).1 = .success 1 0 1 ∧ witC 0 1 ≠ some 1 := by
   decide
 
 /-- F7b: three idempotent, conflicting members (identity, clamp to [1,3], clamp to [-4,0]) on `0`, two random
 replacements that happen to produce `0` again: `and_` succeeds with `0`, which member 1 moves to `1`. -/
-def witC3 : Nat → Int → Out Int := fun i x =>
-  if i = 0 then .ret x else if i = 1 then .ret (max 1 (min 3 x)) else .ret (max (-4) (min 0 x))
+def witC3 : Nat → Int → Option Int := fun i x =>
+  if i = 0 then some x else if i = 1 then some (max 1 (min 3 x)) else some (max (-4) (min 0 x))
 theorem and_collision_witness :
-    (and_ (detc witC3 3) (fun (d : Int) _ => d) 3 9 0 [0, 0]).1 = .success 0 5 1 ∧ witC3 1 0 ≠ .ret 0
-      ∧ (∀ i a b, witC3 i a = .ret b → witC3 i b = .ret b) := by
+    (and_ witC3 (fun (d : Int) _ => d) 3 9 0 [0, 0]).1 = .success 0 5 1 ∧ witC3 1 0 ≠ some 0
+      ∧ (∀ i a b, witC3 i a = some b → witC3 i b = some b) := by
   refine ⟨by decide, by decide, ?_⟩
   intro i a b h
   unfold witC3 at *
@@ -320,33 +259,30 @@ theorem and_collision_witness :
 
 /-! ## `constraints.or_` -/
 
-private theorem orFirst_success [BEq X] [LawfulBEq X] (c : Nat → X → Out X) (x0 : X) :
-    ∀ (k i : Nat) (h : List X) (e : Bool) (calls : Nat) (y : X) (calls' : Nat),
-      orFirst c x0 k i h e calls = .succ y calls' → ∃ i', i ≤ i' ∧ i' < i + k ∧ c i' y = .ret y := by
+private theorem orFirst_success [BEq X] [LawfulBEq X] (c : Nat → X → Option X) (x0 : X) :
+    ∀ (k i : Nat) (h : List X) (e : Bool) (calls : Nat) (y : X) (h' : List X) (calls' : Nat),
+      orFirst c x0 k i h e calls = (some y, h', calls') → ∃ i', i ≤ i' ∧ i' < i + k ∧ c i' y = some y := by
   intro k
   induction k with
-  | zero => intro i h e calls y calls' hr; simp [orFirst] at hr
+  | zero => intro i h e calls y h' calls' hr; simp [orFirst] at hr
   | succ k ih =>
-    intro i h e calls y calls' hr
+    intro i h e calls y h' calls' hr
     unfold orFirst at hr
+    simp only at hr
     split at hr
-    · simp at hr
-    · rename_i ye hye
-      simp only at hr
-      split at hr
-      · rename_i hs
-        simp only [OrFP.succ.injEq] at hr
-        obtain ⟨rfl, _⟩ := hr
-        simp only [Bool.and_eq_true, Bool.not_eq_true', Bool.or_eq_false_iff, beq_iff_eq] at hs
-        refine ⟨i, Nat.le_refl _, by omega, ?_⟩
-        have := applyO_ret hye hs.2.2
-        rw [hs.1] at this ⊢; exact this
-      · obtain ⟨i', h1, h2, h3⟩ := ih (i + 1) _ _ _ y calls' hr
-        exact ⟨i', by omega, by omega, h3⟩
+    · rename_i hs
+      simp only [Prod.mk.injEq, Option.some.injEq] at hr
+      obtain ⟨rfl, _, _⟩ := hr
+      simp only [Bool.and_eq_true, Bool.not_eq_true', Bool.or_eq_false_iff, beq_iff_eq] at hs
+      refine ⟨i, Nat.le_refl _, by omega, ?_⟩
+      have := applyM_some hs.2.2
+      rw [hs.1] at this ⊢; exact this
+    · obtain ⟨i', h1, h2, h3⟩ := ih (i + 1) _ _ _ y h' calls' hr
+      exact ⟨i', by omega, by omega, h3⟩
 
-private theorem orCycle_success [BEq X] [LawfulBEq X] (c : Nat → X → Out X) (pick : D → Nat) (n cap : Nat) :
+private theorem orCycle_success [BEq X] [LawfulBEq X] (c : Nat → X → Option X) (pick : D → Nat) (n cap : Nat) :
     ∀ (fuel j : Nat) (h : List X) (draws : List D) (st : Stats) (y : X) (t links : Nat) (st' : Stats),
-      orCycle c pick n cap fuel j h draws st = (.success y t links, st') → c t y = .ret y := by
+      orCycle c pick n cap fuel j h draws st = (.success y t links, st') → ∃ i, c (i % n) y = some y := by
   intro fuel
   induction fuel with
   | zero => intro j h draws st y t links st' hr; unfold orCycle at hr; split at hr <;> simp at hr
@@ -359,181 +295,95 @@ private theorem orCycle_success [BEq X] [LawfulBEq X] (c : Nat → X → Out X) 
       · simp at hr
       · split at hr
         · simp at hr
-        · split at hr
-          · simp at hr
-          · rename_i ye hye
-            simp only at hr
-            split at hr
-            · rename_i hs
-              simp only [Prod.mk.injEq, Res.success.injEq] at hr
-              obtain ⟨⟨rfl, rfl, rfl⟩, _⟩ := hr
-              simp only [Bool.and_eq_true, Bool.not_eq_true', beq_iff_eq] at hs
-              have := applyO_ret hye hs.2
-              rw [hs.1] at this ⊢; exact this
+        · simp only at hr
+          split at hr
+          · rename_i hs
+            simp only [Prod.mk.injEq, Res.success.injEq] at hr
+            obtain ⟨⟨rfl, rfl, rfl⟩, _⟩ := hr
+            simp only [Bool.and_eq_true, Bool.not_eq_true', beq_iff_eq] at hs
+            refine ⟨j, ?_⟩
+            have := applyM_some hs.2
+            rw [hs.1] at this ⊢; exact this
+          · split at hr
+            · simp at hr
             · split at hr
               · simp at hr
-              · split at hr
-                · simp at hr
-                · exact ih _ _ _ _ y t links st' hr
-
-/-- **or_, for ALL member behaviours.** A success of `or_` returns a vector that one member call (call number
-`t`, to member `t % n`; `t < n` in the first pass) returned unchanged. -/
-theorem or_success_fixed_oracle [BEq X] [LawfulBEq X] (c : Nat → X → Out X) (pick : D → Nat)
-    (n cap : Nat) (x : X) (draws : List D) (y : X) (t links : Nat) (st : Stats)
-    (hr : or_ c pick n cap x draws = (.success y t links, st)) : ∃ j, c j y = .ret y := by
-  unfold or_ at hr
-  split at hr
-  · rename_i y' calls' hf
-    simp only [Prod.mk.injEq, Res.success.injEq] at hr
-    obtain ⟨⟨rfl, _, _⟩, _⟩ := hr
-    obtain ⟨i, _, _, h3⟩ := orFirst_success c x n 0 [x] false 0 _ _ hf
-    exact ⟨i, h3⟩
-  · simp at hr
-  · exact ⟨t, orCycle_success c pick n cap _ _ _ _ _ y t links st hr⟩
+              · exact ih _ _ _ _ y t links st' hr
 
 /-- **or_.** A success of `or_` returns a vector left unchanged by at least one member. -/
-theorem or_success_fixed [BEq X] [LawfulBEq X] (mem : Nat → X → Out X) (pick : D → Nat)
+theorem or_success_fixed [BEq X] [LawfulBEq X] (c : Nat → X → Option X) (pick : D → Nat)
     (n cap : Nat) (x : X) (draws : List D) (y : X) (t links : Nat) (st : Stats)
     (hcap : n = 0 → cap = 0)      -- the code's cap is `maxiter * n`
-    (hr : or_ (detc mem n) pick n cap x draws = (.success y t links, st)) : ∃ i, i < n ∧ mem i y = .ret y := by
-  obtain ⟨j, hj⟩ := or_success_fixed_oracle _ pick n cap x draws y t links st hr
-  by_cases hn : n = 0
-  · -- no members: the first loop is empty and the cycling phase cannot run
-    subst hn
-    rw [hcap rfl] at hr
-    simp [or_, orFirst, orCycle] at hr
-  · exact ⟨j % n, Nat.mod_lt _ (by omega), hj⟩
-
-private theorem orCycle_calls [BEq X] (c : Nat → X → Out X) (pick : D → Nat) (n cap : Nat) :
-    ∀ (fuel j : Nat) (h : List X) (draws : List D) (st : Stats),
-      (orCycle c pick n cap fuel j h draws st).2.calls ≤ st.calls + fuel ∧
-      (orCycle c pick n cap fuel j h draws st).2.draws ≤ st.draws + fuel := by
-  intro fuel
-  induction fuel with
-  | zero => intros; simp [orCycle]
-  | succ fuel ih =>
-    intro j h draws st
-    unfold orCycle
-    split
-    · simp
-    · split
-      · simp
-      · split
-        · simp
-        · split
-          · simp; omega
-          · simp only
-            split
-            · simp; omega
-            · split
-              · simp; omega
-              · split
-                · simp; omega
-                · rename_i r _
-                  have := ih (j + 1) (dropOldAll n j (r :: h)) ‹List D›
-                    { calls := st.calls + 1, draws := st.draws + 1 }
-                  simp only at this ⊢
-                  omega
-
-private theorem orFirst_calls [BEq X] (c : Nat → X → Out X) (x0 : X) :
-    ∀ (k i : Nat) (h : List X) (e : Bool) (calls : Nat),
-      (match orFirst c x0 k i h e calls with
-        | .succ _ m => m ≤ calls + k | .raised m => m ≤ calls + k | .cont _ m => m = calls + k) := by
-  intro k
-  induction k with
-  | zero => intros; simp [orFirst]
-  | succ k ih =>
-    intro i h e calls
-    unfold orFirst
-    split
-    · simp
-    · rename_i ye hye
-      simp only
-      split
-      · simp
-      · have := ih (i + 1) (ye.1 :: h) (e || ye.2) (calls + 1)
-        split at this <;> rename_i heq <;> rw [heq] <;> simp only <;> omega
-
-/-- **bounded iterations (or_).**  For EVERY member behaviour and draw stream: at most `max n cap` member calls
-and at most `cap - n` random picks (one `randint` each). -/
-theorem or_calls_bounded [BEq X] (c : Nat → X → Out X) (pick : D → Nat)
-    (n cap : Nat) (x : X) (draws : List D) :
-    (or_ c pick n cap x draws).2.calls ≤ max n cap ∧ (or_ c pick n cap x draws).2.draws ≤ cap - n := by
-  unfold or_
-  have hf := orFirst_calls c x n 0 [x] false 0
-  split
-  · rename_i y calls heq; rw [heq] at hf; simp only at hf ⊢; omega
-  · rename_i calls heq; rw [heq] at hf; simp only at hf ⊢; omega
-  · rename_i h calls heq; rw [heq] at hf; simp only at hf
-    have := orCycle_calls c pick n cap (cap - n) n h draws { calls := calls }
-    simp only at this
-    omega
+    (hr : or_ c pick n cap x draws = (.success y t links, st)) : ∃ i, i < n ∧ c i y = some y := by
+  unfold or_ at hr
+  split at hr
+  · rename_i y' h' calls' hf
+    simp only [Prod.mk.injEq, Res.success.injEq] at hr
+    obtain ⟨⟨rfl, _, _⟩, _⟩ := hr
+    obtain ⟨i, _, h2, h3⟩ := orFirst_success c x n 0 [x] false 0 _ _ _ hf
+    exact ⟨i, by omega, h3⟩
+  · rename_i h' calls' hf
+    obtain ⟨i, hi⟩ := orCycle_success c pick n cap _ _ _ _ _ y t links st hr
+    by_cases hn : n = 0
+    · -- no members: the first loop is empty and the cycling phase cannot run
+      subst hn
+      rw [hcap rfl] at hr
+      simp [orFirst] at hf
+      obtain ⟨rfl, rfl⟩ := hf
+      simp [orCycle] at hr
+    · exact ⟨i % n, Nat.mod_lt _ (by omega), hi⟩
 
 /-! ## `constraints.not_` -/
 
-private theorem notLoop_success [BEq X] [LawfulBEq X] (c : Nat → X → Out X) (rand : D → X → X) :
-    ∀ (fuel j : Nat) (x : X) (draws : List D) (st : Stats) (y : X) (t links : Nat) (st' : Stats),
-      notLoop c rand fuel j x draws st = (.success y t links, st') → ∃ z, c t y = .ret z ∧ z ≠ y := by
+private theorem notLoop_success [BEq X] [LawfulBEq X] (c : X → Option X) (rand : D → X → X) :
+    ∀ (fuel : Nat) (x : X) (draws : List D) (st : Stats) (y : X) (t links : Nat) (st' : Stats),
+      notLoop c rand fuel x draws st = (.success y t links, st') → ∃ z, c y = some z ∧ z ≠ y := by
   intro fuel
   induction fuel with
-  | zero => intro j x draws st y t links st' hr; simp [notLoop] at hr
+  | zero => intro x draws st y t links st' hr; simp [notLoop] at hr
   | succ fuel ih =>
-    intro j x draws st y t links st' hr
+    intro x draws st y t links st' hr
     unfold notLoop at hr
     simp only at hr
     split at hr
-    · simp at hr
     · rename_i hm
       simp only [Prod.mk.injEq, Res.success.injEq] at hr
-      obtain ⟨⟨rfl, rfl, _⟩, _⟩ := hr
-      unfold notMovedO at hm
+      obtain ⟨⟨rfl, _, _⟩, _⟩ := hr
+      unfold notMoved at hm
       split at hm
       · rename_i z hz
         exact ⟨z, hz, by simpa using hm⟩
       · simp at hm
-      · simp at hm
-      · simp at hm
     · split at hr
       · simp at hr
-      · exact ih _ _ _ _ y t links st' hr
-
-/-- **not_, for ALL member behaviours.** A success of `not_(c)` returns a vector that the member call that
-examined it (call number `t`) changed. -/
-theorem not_success_moved_oracle [BEq X] [LawfulBEq X] (c : Nat → X → Out X) (rand : D → X → X)
-    (maxiter : Nat) (x : X) (draws : List D) (y : X) (t links : Nat) (st : Stats)
-    (hr : not_ c rand maxiter x draws = (.success y t links, st)) : ∃ z, c t y = .ret z ∧ z ≠ y :=
-  notLoop_success c rand maxiter 0 x draws {} y t links st hr
+      · exact ih _ _ _ y t links st' hr
 
 /-- **not_.** A success of `not_(c)` returns a vector that `c` changes. -/
-theorem not_success_moved [BEq X] [LawfulBEq X] (mem : X → Out X) (rand : D → X → X)
+theorem not_success_moved [BEq X] [LawfulBEq X] (c : X → Option X) (rand : D → X → X)
     (maxiter : Nat) (x : X) (draws : List D) (y : X) (t links : Nat) (st : Stats)
-    (hr : not_ (fun _ => mem) rand maxiter x draws = (.success y t links, st)) : ∃ z, mem y = .ret z ∧ z ≠ y :=
-  not_success_moved_oracle (fun _ => mem) rand maxiter x draws y t links st hr
+    (hr : not_ c rand maxiter x draws = (.success y t links, st)) : ∃ z, c y = some z ∧ z ≠ y :=
+  notLoop_success c rand maxiter x draws {} y t links st hr
 
-private theorem notLoop_calls [BEq X] (c : Nat → X → Out X) (rand : D → X → X) :
-    ∀ (fuel j : Nat) (x : X) (draws : List D) (st : Stats),
-      (notLoop c rand fuel j x draws st).2.calls ≤ st.calls + fuel ∧
-      (notLoop c rand fuel j x draws st).2.draws ≤ st.draws + fuel := by
+private theorem notLoop_calls [BEq X] (c : X → Option X) (rand : D → X → X) :
+    ∀ (fuel : Nat) (x : X) (draws : List D) (st : Stats),
+      (notLoop c rand fuel x draws st).2.calls ≤ st.calls + fuel := by
   intro fuel
   induction fuel with
   | zero => intros; simp [notLoop]
   | succ fuel ih =>
-    intro j x draws st
+    intro x draws st
     unfold notLoop
     simp only
     split
-    · simp; omega
-    · simp; omega
+    · (first | (simp; done) | (simp; omega))
     · split
-      · simp; omega
-      · have := ih (j + 1) (rand ‹D› x) ‹List D› { calls := st.calls + 1, draws := st.draws + 1 }
+      · (first | (simp; done) | (simp; omega))
+      · have := ih (rand ‹D› x) ‹List D› { calls := st.calls + 1, draws := st.draws + 1 }
         simp only at this ⊢; omega
 
-/-- **bounded iterations (not_).** For EVERY member behaviour: at most `maxiter` calls and `maxiter` replacements -/
-theorem not_calls_bounded [BEq X] (c : Nat → X → Out X) (rand : D → X → X)
-    (maxiter : Nat) (x : X) (draws : List D) :
-    (not_ c rand maxiter x draws).2.calls ≤ maxiter ∧ (not_ c rand maxiter x draws).2.draws ≤ maxiter := by
-  have := notLoop_calls c rand maxiter 0 x draws {}
+theorem not_calls_bounded [BEq X] (c : X → Option X) (rand : D → X → X)
+    (maxiter : Nat) (x : X) (draws : List D) : (not_ c rand maxiter x draws).2.calls ≤ maxiter := by
+  have := notLoop_calls c rand maxiter x draws {}
   simpa [not_] using this
 
 /-! ## couplers -/
@@ -642,14 +492,14 @@ end pen
 
 /-- a cycling run (two clamps to [1,3] and [2,5] on `0`): success after the first pass failed, links intact,
     both members idempotent and both fix the result -/
-def exC : Nat → Int → Out Int := fun i x => if i = 0 then .ret (max 1 (min 3 x)) else .ret (max 2 (min 5 x))
-example : (and_ (detc exC 2) (fun (d : Int) _ => d) 2 20 0 []).1 = .success 2 2 3 ∧ exC 0 2 = .ret 2 ∧ exC 1 2 = .ret 2 := by
+def exC : Nat → Int → Option Int := fun i x => if i = 0 then some (max 1 (min 3 x)) else some (max 2 (min 5 x))
+example : (and_ exC (fun (d : Int) _ => d) 2 20 0 []).1 = .success 2 2 3 ∧ exC 0 2 = some 2 ∧ exC 1 2 = some 2 := by
   decide
 
-example : (or_ (detc (fun (i : Nat) (x : Int) => if i = 0 then .ret (x + 1) else .ret (max 0 x)) 2) (fun (d : Nat) => d)
+example : (or_ (fun (i : Nat) (x : Int) => if i = 0 then some (x + 1) else some (max 0 x)) (fun (d : Nat) => d)
     2 10 (-3) [1, 1, 1, 1]).1 = .success 0 3 1 := by decide
 
-example : (not_ (fun _ (x : Int) => .ret (max 0 x)) (fun (d : Int) _ => d) 5 3 [7, -2]).1 = .success (-2) 2 0 := by
+example : (not_ (fun (x : Int) => some (max 0 x)) (fun (d : Int) _ => d) 5 3 [7, -2]).1 = .success (-2) 0 0 := by
   decide
 
 end MysticVerif.C17
